@@ -45,6 +45,7 @@ type parState struct {
 type mutexSt struct {
 	writer  int // thread id + 1, 0 = none
 	readers map[int]int
+	waitW   map[int]bool // threads blocked in Lock: sync.RWMutex lets no new reader in while a writer waits
 }
 
 func (e *Engine) tid() int {
@@ -123,7 +124,7 @@ func (e *Engine) blockOn(what string) {
 func (e *Engine) mutexOf(m *Value) *mutexSt {
 	st := e.mutexes[m]
 	if st == nil {
-		st = &mutexSt{readers: map[int]int{}}
+		st = &mutexSt{readers: map[int]int{}, waitW: map[int]bool{}}
 		e.mutexes[m] = st
 	}
 	return st
@@ -141,6 +142,14 @@ func (e *Engine) mLock(m *Value, write bool) {
 			}
 		}
 		busy := st.writer != 0 && st.writer != me+1 || write && otherReaders > 0
+		if !write {
+			// a writer that is already waiting keeps new readers out, also a goroutine that read-locks again
+			for t := range st.waitW {
+				if t != me {
+					busy = true
+				}
+			}
+		}
 		if st.writer == me+1 || write && st.readers[me] > 0 {
 			// the same goroutine locks again: Go's mutexes are not reentrant
 			e.blockOn("lock of a mutex this goroutine already holds")
@@ -149,10 +158,14 @@ func (e *Engine) mLock(m *Value, write bool) {
 		if !busy {
 			if write {
 				st.writer = me + 1
+				delete(st.waitW, me)
 			} else {
 				st.readers[me]++
 			}
 			break
+		}
+		if write {
+			st.waitW[me] = true
 		}
 		e.blockOn("lock of a held mutex")
 	}
